@@ -91,6 +91,26 @@ Schreibe ((die naechste Nummer) minus (die naechste Nummer) mal (die naechste Nu
 '''
 
 
+def generic_permuted():
+    import itertools
+    L = ['Binde "Duden/Ausgabe" ein.', "Wir definieren eine Nummer als eine Zahl.", "Wir definieren eine Marke als einen Text.", "Wir definieren eine Masse als eine Kommazahl.", ""]
+    for tn, base in (("Nummer", "Zahl"), ("Marke", "Text"), ("Masse", "Kommazahl")):
+        L += ["Die Funktion zeige_%s mit dem Parameter x vom Typ %s, gibt nichts zurück, macht:" % (tn, tn), '\tSchreibe "%s:".' % tn, "\tSchreibe (x als %s)." % base,
+              "Und kann so benutzt werden:", '\t"Schreibe <x>"', ""]
+    L += ["Die generische Funktion zwei mit den Parametern a und b vom Typ T und R, gibt nichts zurück, macht:", "\tSchreibe a.", '\tSchreibe " | ".', "\tSchreibe b.",
+          '\tSchreibe "" auf eine Zeile.', "Und kann so benutzt werden:", '\t"zwei <a> <b>"', "",
+          "Die generische Funktion drei mit den Parametern a, b und c vom Typ T, R und S, gibt nichts zurück, macht:", "\tSchreibe a.", '\tSchreibe " | ".', "\tSchreibe b.",
+          '\tSchreibe " | ".', "\tSchreibe c.", '\tSchreibe "" auf eine Zeile.', "Und kann so benutzt werden:", '\t"drei <a> <b> <c>"', "",
+          "Die Nummer n ist 12 als Nummer.", 'Die Marke m ist "abc" als Marke.', "Die Masse g ist 2,5 als Masse.", ""]
+    for plain, defd in (("7", "n"), ('"xyz"', "m"), ("0,5", "g")):
+        for a, b in itertools.product((plain, defd), repeat=2):
+            L.append("zwei %s %s." % (a, b))
+        for t in itertools.product((plain, defd), repeat=3):
+            L.append("drei %s %s %s." % t)
+    L += ["zwei 7 m.", "zwei m 7.", "zwei n \"xyz\".", "zwei \"xyz\" n.", "drei 7 m g.", "drei g m 7.", "drei m g 7."]
+    return "\n".join(L) + "\n"
+
+
 def run(tier):
     ck = Check("C16", tier)
     rng = vlib.rng("c16")
@@ -151,6 +171,9 @@ def run(tier):
     # programs in which the ORDER of evaluating sibling sub-expressions is observable (effects on a global counter): arguments of a
     # Kombination literal, of a function call, elements of a list literal, operands; the executables of all K compilations must behave alike
     proc_items.append(("modules:evaluation-order", {"main.ddp": EFFECT_ORDER.encode()}, "main.ddp"))
+    # generic functions with several type parameters, instantiated with every arrangement of types that share one machine representation
+    # (a type and a definition of it): which instantiation a call reaches must not depend on anything that varies between compilations
+    proc_items.append(("modules:generic-permuted-type-parameters", {"main.ddp": generic_permuted().encode()}, "main.ddp"))
     from concurrent.futures import ThreadPoolExecutor
 
     def proc(item):
